@@ -903,7 +903,7 @@ func execWild(f []string) vlib.Res {
 		nc := ls[len(ls)-s.labels-1:]
 		covered := false
 		for _, n := range nsecs {
-			if nsecCoversOracle(tokLabels(n.owner), tokLabels(n.next), nc) {
+			if nsecCoversOracle(tokLabels(n.owner), tokLabels(n.next), nc) && !entBelow(tokLabels(n.next), nc) {
 				covered = true
 			}
 		}
